@@ -1,13 +1,139 @@
+// sgcheck: repository-specific static analyser for couchbase/sync_gateway.
+// Decides structural necessary conditions of the properties in /verif/properties.jsonl
+// from the type-checked source of the working tree (see /verif/DESIGN.md).
 package main
 
 import (
-	_ "golang.org/x/tools/go/callgraph/cha"
-	_ "golang.org/x/tools/go/callgraph/vta"
-	_ "golang.org/x/tools/go/cfg"
-	_ "golang.org/x/tools/go/packages"
-	_ "golang.org/x/tools/go/ssa"
-	_ "golang.org/x/tools/go/ssa/ssautil"
-	_ "golang.org/x/tools/go/types/typeutil"
+	"flag"
+	"fmt"
+	"os"
+	"path/filepath"
+	"runtime/debug"
+	"sort"
+	"strconv"
+	"strings"
+	"time"
 )
 
-func main() {}
+type propertyCheck struct {
+	run func(c *Ctx, r *Report)
+}
+
+var registry = map[string]func(c *Ctx, r *Report){}
+
+func main() {
+	repo := flag.String("repo", "/repo", "repository working tree")
+	prop := flag.String("property", "", "property id (Cnn)")
+	tier := flag.String("tier", "quick", "quick|thorough")
+	replay := flag.String("replay", "", "violation file: re-run only that rule instance")
+	verif := flag.String("verif", "", "verif dir (default: parent of the binary's dir)")
+	overlays := flag.String("overlay", "", "comma-separated real=replacement file pairs (self-test variants)")
+	only := flag.String("only", "", "report only this rule id")
+	noEvidence := flag.Bool("no-evidence", false, "do not write evidence (self-test runs)")
+	list := flag.Bool("list", false, "list properties with checks")
+	flag.Parse()
+
+	if *list {
+		var ids []string
+		for k := range registry {
+			ids = append(ids, k)
+		}
+		sort.Strings(ids)
+		fmt.Println(strings.Join(ids, " "))
+		return
+	}
+	vdir := *verif
+	if vdir == "" {
+		exe, _ := os.Executable()
+		vdir = filepath.Dir(filepath.Dir(exe))
+	}
+	seed := int64(0)
+	if s := os.Getenv("VERIF_SEED"); s != "" {
+		seed, _ = strconv.ParseInt(s, 10, 64)
+	}
+	run, ok := registry[*prop]
+	if !ok {
+		fmt.Printf("no check registered for property %q\n", *prop)
+		fmt.Printf("VIOLATION property=%s replay=%s\n", *prop, "/verif/out/unknown-property")
+		os.Exit(1)
+	}
+	if *noEvidence {
+		vdirTmp, _ := os.MkdirTemp("", "sgcheck-selftest")
+		// known findings still come from the real verif dir
+		if b, err := os.ReadFile(filepath.Join(vdir, "known_findings.json")); err == nil {
+			os.WriteFile(filepath.Join(vdirTmp, "known_findings.json"), b, 0o644)
+		}
+		vdir = vdirTmp
+		defer os.RemoveAll(vdirTmp)
+	}
+	if *replay != "" {
+		if o := readReplay(*replay); o != "" {
+			*only = o
+		}
+	}
+	rep := NewReport(*prop, *tier, seed)
+	overlay := map[string][]byte{}
+	if *overlays != "" {
+		for _, pair := range strings.Split(*overlays, ",") {
+			kv := strings.SplitN(pair, "=", 2)
+			if len(kv) != 2 {
+				continue
+			}
+			b, err := os.ReadFile(kv[1])
+			if err != nil {
+				fatal(rep, vdir, "overlay: "+err.Error())
+			}
+			overlay[kv[0]] = b
+		}
+	}
+	code := func() (code int) {
+		var ctx *Ctx
+		defer func() {
+			if p := recover(); p != nil {
+				fmt.Printf("checker panic: %v\n%s\n", p, debug.Stack())
+				rep.Rule("plumbing", "core", "the checker must complete", 0)
+				rep.Fail("plumbing", "checker-panic", "-", fmt.Sprint(p))
+				code = rep.Finish(vdir, ctx, "")
+			}
+		}()
+		var err error
+		ctx, err = loadProgram(*repo, *tier, overlay, "")
+		if err != nil {
+			rep.Rule("plumbing", "core", "the working tree must load and type-check", 0)
+			rep.Fail("plumbing", "load", "-", err.Error())
+			return rep.Finish(vdir, nil, "")
+		}
+		fmt.Printf("[%.1fs] loaded %d packages (%d root), %d files in root packages, %d source functions\n", time.Since(rep.start).Seconds(), len(ctx.AllPkgs), len(ctx.Pkgs), ctx.NumFiles, len(ctx.SrcFuncs))
+		run(ctx, rep)
+		return rep.Finish(vdir, ctx, *only)
+	}()
+	os.Exit(code)
+}
+
+func fatal(rep *Report, vdir, msg string) {
+	rep.Rule("plumbing", "core", "the checker must complete", 0)
+	rep.Fail("plumbing", "fatal", "-", msg)
+	os.Exit(rep.Finish(vdir, nil, ""))
+}
+
+func readReplay(path string) string {
+	b, err := os.ReadFile(path)
+	if err != nil {
+		return ""
+	}
+	s := string(b)
+	// crude extraction to avoid a struct: "rule": "X", "construct": "Y"
+	get := func(k string) string {
+		i := strings.Index(s, `"`+k+`": "`)
+		if i < 0 {
+			return ""
+		}
+		rest := s[i+len(k)+5:]
+		j := strings.Index(rest, `"`)
+		if j < 0 {
+			return ""
+		}
+		return rest[:j]
+	}
+	return get("rule")
+}
